@@ -1284,6 +1284,70 @@ theorem ionfree_iterate_well (I : BPIn ℝ) (phi : List ℝ) (hv : I.variant = .
   have hmono := fd_monotone I.r _ (step I phi).phi hg hbtl (by omega) hid hnn
   exact ⟨hmono, le_last_of_pairwise _ hmono 0 hw⟩
 
+/-- **e-beam variant, partial form of "adding positive ions never lowers the potential"**: an exact solution `φ` of the discretised e-beam
+problem with ions lies, at every node, above the finite-difference Poisson potential `ψ` of *the electron charge it carries alone*
+(`A ψ = −ρ_e(φ)/ε₀`, same electron density, ions removed). What this leaves open is the response of the electron density to the higher
+potential (faster electrons, less negative charge — a further rise): comparing with the ion-free *fixed point* needs its uniqueness, and is
+monitored. Hypotheses: non-negative line densities and charge states, non-negative non-decreasing grid, positive on-axis shape values are
+automatic (exponentials). -/
+theorem ions_raise_potential_ebeam_partial (I : BPIn ℝ) (phi psi : List ℝ) (hv : I.variant = .ebeam)
+    (hg : GridMP I.r) (hldu : I.ldu = fdNonuniform I.r) (hr : I.r.Pairwise (· ≤ ·)) (hr0 : ∀ v ∈ I.r, 0 ≤ v)
+    (hphi : phi.length = I.r.length) (hpsi : psi.length = I.r.length) (hc : I.cden.length = I.r.length)
+    (hq : ∀ s ∈ I.sp, 0 ≤ s.q) (hn : ∀ s ∈ I.sp, 0 ≤ s.nl)
+    (hfix : mulL 0 I.ldu phi = (step I phi).b)
+    (hfree : mulL 0 I.ldu psi = List.zipWith (fun c p => -c / Real.sqrt (2 * Const.Q_E * (I.e_kin + p) / Const.M_E) / Const.EPS_0) I.cden phi)
+    (hw : phi.getLast? = some 0) (hw0 : psi.getLast? = some 0) :
+    ∀ p ∈ List.zip psi phi, p.1 ≤ p.2 := by
+  obtain ⟨variant, r, ldu, b0, cden, e_kin, sp⟩ := I
+  simp only at hv hg hldu hphi hpsi hc hq hn hfix hfree hr hr0
+  subst hv; subst hldu
+  simp only [step] at hfix
+  set shape : List (List ℝ) := sp.map fun s => phi.map fun p => Transc.exp (-s.q * (p - minL phi) / s.kT) with hshape
+  have hshpos : ∀ sh ∈ shape, ∀ v ∈ sh, 0 ≤ v := by
+    intro sh hsh v hv'
+    rw [hshape] at hsh
+    obtain ⟨s, _, rfl⟩ := List.mem_map.mp hsh
+    obtain ⟨p, _, rfl⟩ := List.mem_map.mp hv'
+    exact (Real.exp_pos _).le
+  have hshlen : ∀ sh ∈ shape, sh.length = phi.length :=
+    shape_len sp phi (fun s p => Transc.exp (-s.q * (p - minL phi) / s.kT))
+  set i_sr : List ℝ := shape.map fun sh => trapz (List.zipWith (· * ·) r sh) r with hisr
+  set nax : List ℝ := zipWith3 (fun (s : Species ℝ) (sh : List ℝ) (isr : ℝ) => s.nl / lit 2 / Const.PI / isr * sh.headD (lit 0)) sp shape i_sr with hnax
+  have hion := ion_rhs_nonpos phi.length sp shape nax hq
+    (by intro v hv'
+        obtain ⟨s, hs, sh, hsh, isr, hisr', rfl⟩ := mem_zipWith3 _ _ _ _ v hv'
+        rw [hisr] at hisr'
+        obtain ⟨sh', hsh', rfl⟩ := List.mem_map.mp hisr'
+        have h1 := trapz_rshape_nonneg r sh' (by rw [hshlen sh' hsh']; omega) hr hr0 (hshpos sh' hsh')
+        have h2 := hn s hs
+        have h3 : 0 ≤ sh.headD (lit 0) := by
+          cases sh with
+          | nil => simp
+          | cons a t => simpa using hshpos _ hsh a (by simp)
+        have := Const.PI_pos
+        simp only [lit_real]
+        positivity)
+    hshpos
+  set bion := colSum phi.length (zipWith3 (fun (s : Species ℝ) (sh : List ℝ) nx =>
+      zeroLast (sh.map fun v => -nx * s.q * v * Const.Q_E / Const.EPS_0)) sp shape nax) with hbion
+  set bxb : List ℝ := List.zipWith (fun c p => -c / Transc.sqrt (lit 2 * Const.Q_E * (e_kin + p) / Const.M_E) / Const.EPS_0) cden phi with hbxb
+  have hbxb' : List.zipWith (fun c p => -c / Real.sqrt (2 * Const.Q_E * (e_kin + p) / Const.M_E) / Const.EPS_0) cden phi = bxb := by
+    rw [hbxb]; simp
+  rw [hbxb'] at hfree
+  have hbl : (List.zipWith (· + ·) bion bxb).length = r.length := by
+    have := congrArg List.length hfix
+    rw [mulL_length 0 _ phi (by rw [fdNonuniform_length' r hg]; omega)] at this
+    omega
+  have hbxbl : bxb.length = r.length := by simp [hbxb, hc, hphi]
+  -- b = bion + bxb ≤ bxb nodewise
+  have hle : ∀ p ∈ List.zip bxb (List.zipWith (· + ·) bion bxb), p.2 ≤ p.1 := by
+    apply zip_le_of_getElem _ _ (by omega)
+    intro i h1 h2
+    rw [List.getElem_zipWith]
+    have : bion[i]'(by simp only [List.length_zipWith] at h2; omega) ≤ 0 := hion _ (List.getElem_mem _)
+    linarith
+  exact fd_comparison r bxb (List.zipWith (· + ·) bion bxb) psi phi hg hbxbl hbl hpsi hphi hfree hfix hle hw0 hw
+
 /-! ## heat capacity in a wide harmonic well -/
 
 section Harmonic
